@@ -27,6 +27,32 @@ func realTruFormat(format string, kv []string) string {
 	})
 }
 
+// c13FlipFlag: a flag.Value whose text changes between reads (a dynamic flag, a concurrent flag.Set): the first
+// read returns first, every later read returns later
+type c13FlipFlag struct {
+	first, later string
+	reads        int
+}
+
+func (f *c13FlipFlag) String() string {
+	f.reads++
+	if f.reads == 1 {
+		return f.first
+	}
+	return f.later
+}
+func (f *c13FlipFlag) Set(string) error { return nil }
+
+func realTruFormatFlag(f1, f2 string, kv []string) string {
+	return guard(func() string {
+		r, err := safehtml.TrustedResourceURLFormatFromFlag(&c13FlipFlag{first: f1, later: f2}, kvMap(kv))
+		if err != nil {
+			return "err"
+		}
+		return okHex(r.String())
+	})
+}
+
 func realTruAppend(t, s string) string {
 	return guard(func() string {
 		r, err := safehtml.TrustedResourceURLAppend(safehtml.VerifTrustedResourceURLFromConstant(t), s)
@@ -96,6 +122,7 @@ func realUtilDotDot(s string) string {
 
 func init() {
 	replayers["tru.format"] = func(a []string) string { return realTruFormat(a[0], a[1:]) }
+	replayers["tru.formatflag"] = func(a []string) string { return realTruFormatFlag(a[0], a[1], a[2:]) }
 	replayers["tru.append"] = func(a []string) string { return realTruAppend(a[0], a[1]) }
 	replayers["tru.params"] = func(a []string) string { return realTruParams(a[0], a[1:]) }
 	replayers["util.query"] = func(a []string) string { return realUtilQuery(a[0]) }
@@ -187,6 +214,18 @@ func genC13(c *Ctx) {
 		r := realTruFormat(format, kv)
 		nt := truHasMarker(format) && safehtml.VerifIsSafeTrustedResourceURLPrefix(format)
 		c.emit("tru.format", append([]string{format}, kv...), r, nt, formatClass(format, r))
+		// the same through FromFlag with a flag whose value changes between reads: the result must be the one of a
+		// single read (the first)
+		if c.rng.Intn(4) == 0 {
+			other := pick(c, []string{"javascript:alert(1)//%{a}", "http://evil.example/%{a}", "//evil.example/%{a}", "%{a}", format + "/../%{a}", "https://static.example.com/js/%{a}"})
+			if c.rng.Intn(2) == 0 {
+				rf := realTruFormatFlag(format, other, kv)
+				c.emit("tru.formatflag", append([]string{format, other}, kv...), rf, nt, "flag-"+formatClass(format, rf))
+			} else {
+				rf := realTruFormatFlag(other, format, kv)
+				c.emit("tru.formatflag", append([]string{other, format}, kv...), rf, true, "flag-"+formatClass(other, rf))
+			}
+		}
 	}
 	doAppend := func(t, s string) {
 		r := realTruAppend(t, s)
